@@ -99,7 +99,7 @@ def kinds_for(method):
 
 @st.composite
 def c04_case(draw):
-    base = draw(mv.mv_cases(n=st.integers(1, 6), m=1, kinds=KINDS, containers=('0d', '0d', 'len1')))
+    base = draw(mv.mv_cases(n=st.integers(1, 6), m=1, kinds=KINDS, containers=('0d', '0d', 'len1'), int_x=True))
     method = draw(st.sampled_from(H_METHODS))
     hd_method = draw(st.sampled_from([method, method] + H_METHODS))
     hd_order = draw(st.sampled_from([2, 4, 6]))
@@ -197,6 +197,9 @@ class C04(Prop):
                 ctx.count('multicomplex case in a reported precision-loss class')
         f = mv.MVFunction(prog, wrap=wrap)
         x_in = [float(v) for v in x] if case['xform'] == 'list' else np.array(x, dtype=float)
+        if case.get('x_int'):                                  # Python ints / an int64 array
+            x_in = [int(v) for v in x] if case['xform'] == 'list' else np.array(x, dtype=np.int64)
+            ctx.count('integer x (%s)' % case['xform'])
         x_arr = np.array(x, dtype=float)
         quad = mv.is_polynomial(prog)
         ctx.count('method=%s' % method)
